@@ -84,6 +84,12 @@ def run(ctx):
         alts_ = po[1] if po[0] == "phi" else [oct_]
         okc = all(bool(A.calls_in(a_, lambda n: n.endswith("to_ascii_lowercase"))) and any(A.peel(x) == ("param", 1) for x in A.walk(a_)) for a_ in alts_)
         ctx.check(okc, "C16.5", "Label::try_from:lowercase", "octets = to_ascii_lowercase(input)", "label octets are %s" % A.show(oct_), tf.loc(b, i))
+    # the wire decoder's strictness guards (label <= 63, reserved length octets rejected, name <= 255) are the C16 limits for
+    # names built from the wire (C03.6, decided here as well)
+    from ..core import RuleAlias
+    if not isinstance(ctx, RuleAlias):
+        from . import C03
+        C03.run(RuleAlias(ctx, {"C03.6": "C16.3"}))
     # ---- C16.8
     fd = prog.fn(DN + "::from_dotted_string")
     fdr = A.Resolver(fd)
@@ -104,6 +110,9 @@ def run(ctx):
         ctx.check(okr, "C16.8", "from_dotted_string:none#%d" % n8, "None only for an unbuildable label or an interior empty label",
                   "from_dotted_string can return None without a label having failed", fd.loc(b))
     ctx.floor("C16.8", "None returns of from_dotted_string", n8, 1)
+    splits = [fdr.call_expr(t, b) for b, t in A.call_blocks(fd, A.name_endswith("<impl str>::split"))]
+    ctx.check(len(splits) == 1 and A.peel(splits[0][2][0]) == ("param", 1), "C16.8", "from_dotted_string:split-as-given", "the labels are the dot-separated pieces of the text as given (nothing trimmed first)",
+              "the text is split as %s" % [A.show(x[2][0])[:60] for x in splits], fd.loc())
     # ---- C16.9
     td = prog.fn(DN + "::to_dotted_string")
     tdr = A.Resolver(td)
